@@ -38,7 +38,8 @@ Definition obs_match (strict : bool) (now : Z) (m i : obs) : bool :=
   | Out (OTokens a), Out (OTokens b) =>
       andb (ideq (tr_at a) (tr_at b)) (andb (ideq (tr_rt a) (tr_rt b)) (andb (Bool.eqb (tr_idt a) (tr_idt b))
       (andb (seqb (tr_scope a) (tr_scope b)) (andb (Bool.eqb (tr_dpop a) (tr_dpop b))
-      (andb (res_eqb (tr_res a) (tr_res b)) (res_eqb (tr_aud a) (tr_aud b)))))))
+      (andb (ideq (tr_jkt a) (tr_jkt b)) (andb (ideq (tr_x5t a) (tr_x5t b))
+      (andb (res_eqb (tr_res a) (tr_res b)) (res_eqb (tr_aud a) (tr_aud b)))))))))
   | Out (OPar a), Out (OPar b) => ideq a b
   | Out (OCiba a x), Out (OCiba b y) => andb (ideq a b) (Bool.eqb x y)
   | Out (OIntro a), Out (OIntro b) =>
